@@ -33,7 +33,7 @@ func init() {
 		Parallel: 4,                          // cases are judged on 4 goroutines per shard: the library functions are stateless, shared state inside them shows up as wrong verdicts
 		Rule: "sweep: one case per (hash, n): every n in 0..1500 (thorough 0..20000) for SHA-256, every n in 0..300 (thorough 0..4000) and every 5th n above for SHA-512, BLAKE2b-256 and SHA-1, and 2^k-1, 2^k, 2^k+1 for k up to 14 (thorough 18) for all four, plus for SHA-256 leaf counts around 2^15..2^18 (thorough 2^20) and sums of two powers of two (+0, +1); the payload style rotates with n over {random 0..40 bytes, all empty, all equal, one byte, a few long leaves, leaves starting with 0x00/0x01 of node-preimage length, mixed}. " +
 			"style: random (hash, n <= 3000) under every payload style. fail: 1..4 leaves at seeded positions (first, last, around the split point, random; n up to 3000 and some lists of 4096..16000 leaves) return distinct errors, the failing leaf with the lowest index is slow (injected 3 ms delay) in half of the cases; Hasher objects are shared between cases and goroutines in three quarters of the cases. empty: nil and empty slices. " +
-			"Each case: Hash over instrumented leaves vs. the model's bottom-up root; RFC 6962 audit paths produced by the model for leaf 0, n-1, the leaves around the split point and random leaves are verified against the library's root with the RFC 9162 2.1.3.2 algorithm; the leaf slice, the elements behind its length and every payload are compared with their state before the call; a second call with leaves of another Go type must give the same root; with failing leaves the error must be that of the lowest failing index, or of the first failing MarshalBinary call the library actually made (the same leaf for a left-to-right traversal), and no hash may be returned. " +
+			"Each case: Hash over instrumented leaves vs. the model's bottom-up root; RFC 6962 audit paths produced by the model for leaf 0, n-1, the leaves around the split point and random leaves are verified against the library's root with the RFC 9162 2.1.3.2 algorithm; the leaf slice, the elements behind its length and every payload are compared with their state before the call; a second call with leaves of other Go types (value-typed, nil instead of empty payloads, and leaves whose MarshalBinary calls back into the same Hasher to hash a nested 3-leaf tree) must give the same root; with failing leaves the error must be that of the lowest failing index, or of the first failing MarshalBinary call the library actually made (the same leaf for a left-to-right traversal), and no hash may be returned. " +
 			"Non-trivial: distinct (hash, n) of the sweep with n >= 3 and n not a power of two.",
 		Assumptions: []string{"SHA-256, SHA-512, SHA-1 of the Go standard library and BLAKE2b of golang.org/x/crypto (used by both sides)",
 			"the bottom-up model in harness/oracle/merklem (self-tested against the recursive RFC 6962 definition for n <= 64, the Certificate Transparency reference roots and audit path)"},
@@ -41,7 +41,7 @@ func init() {
 		Gen:      gen,
 		Judge:    judge,
 		Render:   render,
-		Required: []string{"root == model root", "root == model root, n not a power of two", "audit path verifies against the library root",
+		Required: []string{"re-entrant Hash calls from inside MarshalBinary", "root == model root", "root == model root, n not a power of two", "audit path verifies against the library root",
 			"Hash(nil) == EmptyRoot() == H()", "Hash(empty slice) == H()", "inputs unchanged", "same root from leaves of another type",
 			"fail: error of the lowest failing index returned, no hash", "fail: several failing leaves"},
 	})
@@ -265,6 +265,27 @@ func hasherFor(hid int, ch crypto.Hash, seed int64) *merkle.Hasher {
 		return merkle.NewHasher(ch)
 	}
 	return sharedH[hid]
+}
+
+// nestedLeaf computes the root of a small tree with the same Hasher inside its MarshalBinary.
+type nestedLeaf struct {
+	h    *merkle.Hasher
+	sub  [][]byte
+	want []byte
+	data []byte
+	bad  *int32
+}
+
+func (l *nestedLeaf) MarshalBinary() ([]byte, error) {
+	leaves := make([]encoding.BinaryMarshaler, len(l.sub))
+	for i, d := range l.sub {
+		leaves[i] = rawLeaf(d)
+	}
+	got, err := l.h.Hash(leaves)
+	if err != nil || !bytes.Equal(got, l.want) {
+		atomic.StoreInt32(l.bad, 1)
+	}
+	return l.data, nil
 }
 
 // rawLeaf is a second, value-typed marshaler over the same bytes.
@@ -505,10 +526,21 @@ func judge(class string, key []byte, o *fw.Obs) {
 	// the same bytes behind another Go type
 	if n <= 4096 {
 		data2 := make([]encoding.BinaryMarshaler, n)
+		nestedBad := int32(0)
 		for i := range data2 {
-			if i%2 == 0 {
-				data2[i] = rawLeaf(at(buf, i))
-			} else {
+			switch {
+			case i%3 == 2 && i%5 != 0:
+				// a leaf that is itself the root of a small tree: its MarshalBinary calls back into the SAME
+				// Hasher (re-entrant use) before it returns its bytes
+				sub := [][]byte{at(buf, i), {byte(i)}, nil}
+				data2[i] = &nestedLeaf{h: H, sub: sub, want: T.Root(sub), data: at(buf, i), bad: &nestedBad}
+			case i%2 == 0:
+				d := at(buf, i)
+				if len(d) == 0 && i%4 == 0 {
+					d = nil // nil instead of empty
+				}
+				data2[i] = rawLeaf(d)
+			default:
 				data2[i] = &leaf{idx: i, data: at(buf, i), log: &log, cl: cl}
 			}
 		}
@@ -520,7 +552,14 @@ func judge(class string, key []byte, o *fw.Obs) {
 			o.Fail("determinism", "%s n=%d: a second call over the same marshaled bytes (other leaf types) returned %x err=%v, first call %x", hd.name, n, root2, err, root)
 			return
 		}
+		if atomic.LoadInt32(&nestedBad) != 0 {
+			o.Fail("root", "%s n=%d: a nested Hash call made from inside a leaf's MarshalBinary on the same Hasher (a 3-leaf tree) returned an error or a root different from the RFC 6962 root", hd.name, n)
+			return
+		}
 		o.Count("same root from leaves of another type")
+		if n > 2 {
+			o.Count("re-entrant Hash calls from inside MarshalBinary")
+		}
 	}
 }
 
